@@ -55,3 +55,23 @@ Theorem c12_create_feature_refuted :
     walk false (sto s') <> walk false (sto s).
 Proof. exact feature_refuted. Qed.
 Print Assumptions c12_create_feature_refuted.
+
+(* ---- dimension calls (model: Pure/DimLink.v, tied by the dimension histories): unordered ticks, a
+   link index of the wrong length or without exactly one -1, labels on a linked set dimension,
+   removing a link that is not there - whatever is refused changes nothing *)
+From NixV Require Import Pure.DimLink Proofs.DimLinkProofs.
+From Coq Require Import ZArith List.
+Theorem c12_dimension_calls : forall s o s' e, dstep s o = (s', Some e) -> s' = s.
+Proof. exact refused_unchanged. Qed.
+Print Assumptions c12_dimension_calls.
+Theorem c12_dimension_refusals_exact : forall s o, (exists e, snd (dstep s o) = Some e) <->
+  match o with
+  | RSetTicks l => descends l = true
+  | RLink idx | SLink idx => link_check (tg s) idx <> None
+  | RUnlink => r_link (rd s) = None
+  | SUnlink => s_link (sd s) = None
+  | SSetLabels _ => s_link (sd s) <> None
+  | _ => False
+  end.
+Proof. exact refusals. Qed.
+Print Assumptions c12_dimension_refusals_exact.
